@@ -2,6 +2,8 @@
 // canonical printers for the public-API observation.
 use std::fmt::Write as _;
 
+pub mod gen;
+
 pub fn unhex(s: &str) -> Vec<u8> {
     let b = s.as_bytes();
     let mut out = Vec::with_capacity(b.len() / 2);
